@@ -1396,7 +1396,8 @@ fn run_case(seed: u64, case: u64, thorough: bool, driver: &str) -> (Case, Value)
     world.c.tr(first);
     world.c.tr("ghost on".into());
 
-    let steps = rng.range(14, if thorough { 60 } else { 34 });
+    let witness = case < 2;
+    let steps = if witness { 8 } else { rng.range(14, if thorough { 60 } else { 34 }) };
     let mut long_idles = 0;
     for step in 0..steps {
         if step == 9 && fault("panic") {
@@ -1405,6 +1406,21 @@ fn run_case(seed: u64, case: u64, thorough: bool, driver: &str) -> (Case, Value)
         }
         if world.c.tainted || world.c.fails.len() >= 3 {
             break;
+        }
+        // cases 0 and 1 are the corpus witnesses of the two listener life-cycle findings: plain traffic (sends and
+        // replies only), then RemoveListener (case 0: F1494, fixed) / Deactivate + Activate (case 1: F1490)
+        if witness {
+            let live: Vec<usize> = (0..world.flows.len()).filter(|&i| !world.flows[i].closed).collect();
+            if world.flows.is_empty() || rng.chance(3, 5) {
+                let ci = rng.below(nmain as u64) as usize;
+                let len = rng.range(6, world.k.max_rx.min(1200) as u64) as usize;
+                world.send(ci, len, false);
+            } else if !live.is_empty() {
+                let fi = *rng.pick(&live);
+                let len = rng.range(4, world.k.max_rx.min(1200) as u64) as usize;
+                world.reply(fi, len);
+            }
+            continue;
         }
         // the unusual configurations last a few steps only
         if !world.front_on && rng.chance(1, 3) {
@@ -1578,7 +1594,14 @@ fn run_case(seed: u64, case: u64, thorough: bool, driver: &str) -> (Case, Value)
     }
     // how the listener's life ends: plain stop (HardStop), RemoveListener, or SoftStop — each must tear every
     // flow down through the manager and release its upstream socket
-    let ending = rng.below(6);
+    let ending = match case {
+        0 => 0,
+        1 => 2,
+        _ => rng.below(6),
+    };
+    if witness {
+        world.c.tag(if case == 0 { "witness-remove-listener" } else { "witness-reactivate-listener" });
+    }
     if world.c.fails.is_empty() && !world.c.tainted && world.c.inconclusive.is_none() {
         if ending == 0 {
             match world.w.remove_listener(world.front, ListenerType::Udp) {
